@@ -14,6 +14,29 @@
 ABTI_verif_counter ABTI_verif_cov[ABTI_VERIF_NUM_POINTS];
 void (*volatile ABTI_verif_point_f)(int id) = NULL;
 
+void (*volatile ABTI_verif_fail_f)(const char *what) = NULL;
+
+void ABTI_verif_fail(const char *what)
+{
+    void (*f)(const char *) = ABTI_verif_fail_f;
+    if (f) {
+        f(what);
+    } else {
+        fprintf(stderr, "ABTI_verif_fail: %s\n", what);
+        abort();
+    }
+}
+
+/* Runs on the new stack right after the old context (arg) was stored. */
+void ABTD_verif_saved_cb(void *arg)
+{
+    ABTD_ythread_context *p_old = (ABTD_ythread_context *)arg;
+    void (*f_cb)(void *) = p_old->verif_cb;
+    void *cb_arg = p_old->verif_cb_arg;
+    __atomic_store_n(&p_old->verif_oncpu, 0, __ATOMIC_RELEASE);
+    f_cb(cb_arg);
+}
+
 #ifdef ABTD_VERIF_TSAN
 ABTD_verif_fiber_entry ABTD_verif_fiber_cache[ABTD_VERIF_FIBER_CACHE_SIZE];
 int ABTD_verif_fiber_cache_n = 0;
